@@ -51,6 +51,41 @@ pub fn run(o: &Opts) {
     files.push(("src/readme.md".into(), None));
     files.push(("lib/data.txt".into(), None));
     files.push(("src/a/noext".into(), None));
+    // configured language globs (half of the projects): a new extension, a bare file name, and globs that RE-ASSIGN an
+    // extension a builtin language claims (the configured language then is the file's language)
+    let mut lang_globs: Vec<(usize, &str)> = vec![];
+    if pi % 2 == 1 {
+      let pool: [(usize, &str); 6] = [(3, "*.pyx"), (2, "*.ts"), (0, "*.mts"), (1, "*.jsx"), (0, "noext"), (1, "*.tsx")];
+      for _ in 0..(1 + rng.below(3)) {
+        let e = *rng.pick(&pool);
+        if !lang_globs.iter().any(|g| g.1 == e.1) {
+          lang_globs.push(e);
+        }
+      }
+      files.push(("src/mod.pyx".into(), None));
+      files.push(("ext.pyx".into(), None));
+      let mut cfg = String::from("ruleDirs:\n  - rules\nlanguageGlobs:\n");
+      for (li, _) in LANGS.iter().enumerate() {
+        let gs: Vec<&str> = lang_globs.iter().filter(|g| g.0 == li).map(|g| g.1).collect();
+        if !gs.is_empty() {
+          cfg.push_str(&format!("  {}: {}\n", LANGS[li].0, serde_json::to_string(&gs).unwrap()));
+        }
+      }
+      std::fs::write(dir.join("sgconfig.yml"), cfg).unwrap();
+      for (f, lang) in files.iter_mut() {
+        let base = f.rsplit('/').next().unwrap();
+        for (li, g) in &lang_globs {
+          let hit = if let Some(ext) = g.strip_prefix("*.") { base.ends_with(&format!(".{ext}")) } else { base == *g };
+          if hit {
+            if *lang != Some(*li) {
+              out.count("language-globs:file-reassigned");
+            }
+            *lang = Some(*li);
+          }
+        }
+      }
+      out.count("language-globs:project");
+    }
     for (f, _) in &files {
       let p = dir.join(f);
       std::fs::create_dir_all(p.parent().unwrap()).unwrap();
